@@ -189,6 +189,7 @@ impl<T> Pool<T> {
     /// See [`PoolError`] for details.
     pub fn try_get(&self) -> Result<Object<T>, PoolError> {
         let inner = self.inner.as_ref();
+        let waiting = Waiting::new(&inner.available);
         let permit = inner.semaphore.try_acquire().map_err(|e| match e {
             TryAcquireError::NoPermits => PoolError::Timeout,
             TryAcquireError::Closed => PoolError::Closed,
@@ -202,7 +203,7 @@ impl<T> Pool<T> {
             return Err(PoolError::Closed);
         };
         permit.forget();
-        let _ = inner.available.fetch_sub(1, Ordering::Relaxed);
+        waiting.done();
         Ok(Object {
             pool: Arc::downgrade(&self.inner),
             obj: Some(obj),
@@ -217,6 +218,7 @@ impl<T> Pool<T> {
     /// See [`PoolError`] for details.
     pub async fn timeout_get(&self, timeout: Option<Duration>) -> Result<Object<T>, PoolError> {
         let inner = self.inner.as_ref();
+        let waiting = Waiting::new(&inner.available);
         let permit = match (timeout, inner.config.runtime) {
             (None, _) => inner
                 .semaphore
@@ -245,7 +247,7 @@ impl<T> Pool<T> {
             return Err(PoolError::Closed);
         };
         permit.forget();
-        let _ = inner.available.fetch_sub(1, Ordering::Relaxed);
+        waiting.done();
         Ok(Object {
             pool: Arc::downgrade(&self.inner),
             obj: Some(obj),
@@ -357,6 +359,28 @@ impl<T> Pool<T> {
                 0
             },
         }
+    }
+}
+
+/// Counts a caller of `get` in [`PoolInner::available`] from the moment it
+/// starts waiting for an [`Object`]. The count is taken back when the call
+/// fails or is cancelled and stays if it succeeds, as the [`Object`] is no
+/// longer available then.
+struct Waiting<'a>(&'a AtomicIsize);
+
+impl<'a> Waiting<'a> {
+    fn new(available: &'a AtomicIsize) -> Self {
+        let _ = available.fetch_sub(1, Ordering::Relaxed);
+        Self(available)
+    }
+    fn done(self) {
+        std::mem::forget(self)
+    }
+}
+
+impl Drop for Waiting<'_> {
+    fn drop(&mut self) {
+        let _ = self.0.fetch_add(1, Ordering::Relaxed);
     }
 }
 
